@@ -288,10 +288,22 @@ func genPipePlan(seed int64, o PipeGenOpts) *PipePlan {
 							if !nt.Equal(&old) && fe.g.MinRecLen(&nt) < 200 {
 								d0, _ := fe.g.DataSet(&old, 1+r.Intn(2), 200)
 								d1, _ := fe.g.DataSet(&nt, 1+r.Intn(2), 300)
-								m.Sets = append(m.Sets, d0)
+								saved := m.Sets
+								m.Sets = append(append([]model.Set(nil), saved...), d0)
 								m.Sets = append(m.Sets, fe.g.TemplateSets([]model.Template{nt})...)
 								m.Sets = append(m.Sets, d1)
-								fe.tpls[ti] = nt
+								if enc, _ := m.Encode(func(id uint16) *model.Template {
+									for k := range fe.tpls {
+										if fe.tpls[k].ID == id {
+											return &fe.tpls[k]
+										}
+									}
+									return nil
+								}); len(enc) > p.Cfg.udpSize(proto)-20 {
+									m.Sets = saved // would not fit into one datagram
+								} else {
+									fe.tpls[ti] = nt
+								}
 							}
 						}
 						if len(m.Sets) == 0 {
@@ -407,7 +419,7 @@ func genPipePlan(seed int64, o PipeGenOpts) *PipePlan {
 				// the first workers are retired when the 17th sampling window ends
 				// (t = 2070 s); the receive loop drops one pooled buffer per idle
 				// second, so traffic must follow the retirement closely
-				p.Dels[i].AbsUs = 2070*1000000 + int64(r.Intn(5))*200000
+				p.Dels[i].AbsUs = 2070*1000000 + int64([]int{0, 0, 0, 1, 2, 4}[r.Intn(6)])*200000
 				p.Dels[i].AtUs = 0
 			}
 			// and a second copy of it in the same instants, so that several
